@@ -1397,8 +1397,11 @@ class Store:
         for daughter, daughter_state in \
                 zip(daughters, daughter_states):
             # use initial state as default, merge in divided values
+            # each daughter gets its own copy of its share: dividers such
+            # as ``set`` hand the same object to both daughters
             merged_initial_state = deep_merge(
-                daughter_state, daughter.get('initial_state', {}))
+                copy.deepcopy(daughter_state),
+                daughter.get('initial_state', {}))
 
             daughter_key = daughter['key']
             daughter_path = (daughter_key,)
